@@ -188,6 +188,14 @@ impl<'a, 'c, 'd> Mutator<'a, 'c, 'd> {
             }
             (None, SType::Record(_, fields), Value::Record(items)) => {
                 out.push(("map-for-record", Value::Map(items.iter().cloned().collect())));
+                // a field given under one of its aliases (validation and the encoder look fields up by alias too)
+                if let Some((pos, alias)) = items.iter().enumerate().find_map(|(i, (k, _))| fields.iter().find(|f| f.name == *k).and_then(|f| f.aliases.first()).map(|a| (i, a.clone()))) {
+                    if !items.iter().any(|(k, _)| *k == alias) && !fields.iter().any(|f| f.name == alias) {
+                        let mut it = items.clone();
+                        it[pos].0 = alias;
+                        out.push(("field-by-alias", Value::Record(it)));
+                    }
+                }
                 if items.len() >= 2 {
                     let mut it = items.clone();
                     it.reverse();
@@ -371,7 +379,15 @@ pub fn bare_branch_disagreement(sub: &Subject, val: &Value, path: &[Step]) -> Op
     if matches!(bare, Value::Union(..)) {
         return None;
     }
-    let (index, _) = u.find_schema_with_known_schemata(bare, Some(names), ns.as_deref())?;
+    let (index, branch) = u.find_schema_with_known_schemata(bare, Some(names), ns.as_deref())?;
+    // for arrays and maps the library promises that the matched branch really fits the value
+    // ("Maps and arrays need to be checked if they actually match the value")
+    if matches!(bare, Value::Array(_) | Value::Map(_)) && matches!(branch, apache_avro::Schema::Array(_) | apache_avro::Schema::Map(_)) {
+        let schemata: Vec<&apache_avro::Schema> = vec![&sub.schema];
+        if let Err(e) = bare.clone().resolve_schemata(branch, schemata) {
+            return Some(format!("validation matches the bare value {} with branch {index} of the union although it does not resolve against that branch: {e}", short(bare)));
+        }
+    }
     let w = GenericDatumWriter::builder(&sub.schema).validate(false).build().ok()?;
     let bytes = w.write_value_to_vec(val.clone()).ok()?;
     // which branch did the encoder write? (read with the reference decoder; byte comparison would
@@ -577,7 +593,7 @@ pub fn check_value(sub: &Subject, val: &Value, good: &(V, Value)) -> Result<&'st
 }
 
 pub fn case_forms(c: &mut Choices, log: &mut CaseLog) -> CaseResult {
-    let cfg = if c.bool() { schema_cfg() } else { SgenCfg { node_budget: 16, max_depth: 3, ..SgenCfg::full() } };
+    let cfg = if c.bool() { schema_cfg() } else { SgenCfg { node_budget: 16, max_depth: 3, decorations: true, ..SgenCfg::full() } };
     let Some(sub) = gen_subject(c, &cfg, log)? else {
         return Ok(());
     };
